@@ -815,6 +815,7 @@ func runC15(e *Env) error {
 	}
 	// (0) the library's own loaders over real files
 	c15OwnLoaders(e)
+	c15Compiled(e)
 	// (a) regression corpus
 	for _, c := range ecCorpus() {
 		ok, err := ecCheck(e, c.ops, c.name, c.want)
